@@ -57,8 +57,13 @@ def run(ck):
         c = dict(iters=iters, scores=h, minimize=bool(rr.integers(0, 2)), early=bool(rr.integers(0, 2)),
                  mult=float(rr.choice([1.0, 1.1, 1.5])), rb=bool(rr.integers(0, 2)), arg=iters)
         c['ctor_metric'] = [None, 'accuracy', 'mse'][c['iters'] % 3]
+        # every fourth history with at least two rounds: the wall-clock test fires at the top of round r (scripted clock)
+        c['timeout'] = (1 + (k // 4) % (iters - 1)) if (k % 4 == 1 and iters >= 2) else None
+        budget = iters if c['timeout'] is None else c['timeout']
         o = sc.run_real_fit(xr, c['iters'], c['arg'], c['scores'], 'mse' if c['minimize'] else 'accuracy', c['early'], c['mult'], c['rb'],
-                            ctor_metric=c['ctor_metric'])
+                            ctor_metric=c['ctor_metric'], timeout_round=c['timeout'])
+        if c['timeout'] is not None:
+            ck.count('scripted: clock runs out at the top of a round')
         ck.case(dict(c, observed=o), nontrivial=iters >= 1, sample=(k % 701 == 3))
         ck.count('scripted rb=%s es=%s' % (c['rb'], c['early']))
         if o['crashed'] is not None:
@@ -67,8 +72,8 @@ def run(ck):
             ck.violation(f'stored coefficients were solved with M version {o["w"][1]} / bandwidth tag {o["w"][2]} but the stored M is version {o["m"]}, '
                          f'sqrtM {o["sqrtm"]}, bandwidth {o["bw"]} on {c}', dict(c, observed=o),
                          key=json.dumps(dict(site='scripted-coherence', rb=c['rb'], early=c['early'])))
-        stopped = o['evals'] != c['iters'] + 1
-        cases.append((k, f"outcome_eqb ({sc.coq_frun(c['minimize'], c['mult'], c['iters'], c['arg'], c['rb'], c['early'], c['scores'])}) {sc.coq_outcome(o, stopped)}"))
+        stopped = o['evals'] != budget + 1
+        cases.append((k, f"outcome_eqb ({sc.coq_frun(c['minimize'], c['mult'], c['iters'], c['arg'], c['rb'], c['early'], c['scores'], timeout_round=c['timeout'])}) {sc.coq_outcome(o, stopped)}"))
         meta[k] = c
     res = ck.run_bool_cases('coh', sc.FIT_HEADER, cases, shard=500)
     bad = [meta[k] for k, v in res.items() if v is not True]
